@@ -73,7 +73,9 @@ def gen_case(rnd, prop, tier):
         c['keys'] = ['k%d' % i if rnd.random() < 0.5 else ('a%d' % i, 'b') for i in range(n)]
         c['order'] = rnd.sample(range(n), n)          # insertion order of the qualities dict
         if kind == 'mech-dict-base':
-            c['base'] = [rnd.choice([1.0, 1.0, 2.0, 0.25, 10.0, 1e-3]) for _ in range(n)]
+            c['base'] = [rnd.choice([1.0, 1.0, 2.0, 0.25, 10.0, 1e-3, 1e-200, 0.0]) for _ in range(n)]
+            if not any(b > 0 for b in c['base']):
+                c['base'][0] = 1.0
             c['base_order'] = rnd.sample(range(n), n)     # insertion order of the base-measure dict (may differ)
     if kind == 'mwem':
         n = max(2, min(n, 5))
@@ -116,7 +118,7 @@ def ref_logp(q, coef_c, logbase=None):
     s = np.longdouble(coef_c) * (q - q.max())
     if logbase is not None:
         s = s + np.asarray(logbase, dtype=np.longdouble)
-    m = s.max()
+    m = s[np.isfinite(s)].max()
     z = m + np.log(np.sum(np.exp(s - m)))
     return np.asarray(s - z, dtype=float)
 
@@ -192,7 +194,8 @@ def run_case(case, prop):
                         break
                     order = list(qd.keys())
                     qv = np.array([qd[kk] for kk in order])
-                    lb = None if base is None else np.log(np.array([base[kk] for kk in order], dtype=float))
+                    with np.errstate(divide='ignore'):
+                        lb = None if base is None else np.log(np.array([base[kk] for kk in order], dtype=float))
                     check_p(ev, qv, 0.5 * eps / sens, tagbase + ' call#%d' % k, viol, kind, lb)
                     if ret != order[int(ev['idx'][0])]:
                         viol.append(Violation('c20-return', kind + ':return', 'returned key %r but the PRNG chose candidate %r' % (ret, order[int(ev['idx'][0])])).as_dict())
